@@ -10,6 +10,12 @@
 
 import inspect
 from klepto.tools import IS_PYPY
+def _iscallableinstance(func):
+    "check if func is a callable instance (to be treated as its __call__)"
+    # (an instance may have a __name__, e.g. from functools.update_wrapper)
+    if not hasattr(func, '__call__'): return False
+    return not hasattr(func, '__name__') or inspect.ismethod(func.__call__)
+
 def signature(func, variadic=True, markup=True, safe=False):
     """get the input signature of a function
 
@@ -87,10 +93,10 @@ def signature(func, variadic=True, markup=True, safe=False):
             func = func.func
             identified = True
             if not inspect.ismethod(func) and not inspect.isfunction(func) \
-               and hasattr(func, '__call__') and not hasattr(func, '__name__'):
+               and _iscallableinstance(func):
                 func = func.__call__ # partial of a callable instance
         except AttributeError:
-            if hasattr(func, '__call__') and not hasattr(func, '__name__'):
+            if _iscallableinstance(func):
                 func = func.__call__ # treat callable instance as __call__
             else: #XXX: anything else to try? No? Give up.
                 pass
@@ -206,10 +212,10 @@ def validate(func, /, *args, **kwds):
             p_required = set(p_named) - set(p_defaults)
             identified = True
             if not inspect.ismethod(func) and not inspect.isfunction(func) \
-               and hasattr(func, '__call__') and not hasattr(func, '__name__'):
+               and _iscallableinstance(func):
                 func = func.__call__ # partial of a callable instance
         except AttributeError:
-            if hasattr(func, '__call__') and not hasattr(func, '__name__'):
+            if _iscallableinstance(func):
                 func = func.__call__ # treat callable instance as __call__
             else: #XXX: anything else to try? No? Give up.
                 pass
